@@ -446,6 +446,54 @@ func init() {
 		}
 		return "", ""
 	})
+	// A decoder overwrites everything it decodes: parsing into a receiver that already holds another value
+	// gives what parsing into a fresh one gives.  args (kind, first input, second input)
+	Oracle("c13.reuse", func(a []Val) (string, string) {
+		kind := a[0].Str()
+		var fresh, reused string
+		switch kind {
+		case "guid.from_raw":
+			var g1, g2 dtyp.GUID
+			if fromRaw(&g1, exact(a[2].B)) != nil {
+				return "", ""
+			}
+			fromRaw(&g2, exact(a[1].B))
+			if fromRaw(&g2, exact(a[2].B)) != nil {
+				return "C13/reuse/" + kind, "second parse fails on a reused receiver only"
+			}
+			fresh, reused = guidVal(&g1).String()+g1.ToFormatD(), guidVal(&g2).String()+g2.ToFormatD()
+		case "uuid.unmarshal":
+			var u1, u2 uuid.UUID
+			if _, err := u1.Unmarshal(exact(a[2].B)); err != nil {
+				return "", ""
+			}
+			u2.Unmarshal(exact(a[1].B))
+			u2.Unmarshal(exact(a[2].B))
+			fresh, reused = uuidVal(&u1).String(), uuidVal(&u2).String()
+		case "v1.from_bytes":
+			var u1, u2 uuid_v1.UUIDv1
+			if u1.FromBytes(exact(a[2].B)) != nil {
+				return "", ""
+			}
+			u2.FromBytes(exact(a[1].B))
+			u2.FromBytes(exact(a[2].B))
+			fresh, reused = v1Val(&u1).String(), v1Val(&u2).String()
+		case "v2.from_bytes":
+			var u1, u2 uuid_v2.UUIDv2
+			if u1.FromBytes(exact(a[2].B)) != nil {
+				return "", ""
+			}
+			u2.FromBytes(exact(a[1].B))
+			u2.FromBytes(exact(a[2].B))
+			fresh, reused = v2Val(&u1).String(), v2Val(&u2).String()
+		default:
+			return "", ""
+		}
+		if fresh != reused {
+			return "C13/reuse/" + kind, fmt.Sprintf("%s(%x) then (%x) on the same receiver gives %s; on a fresh receiver %s", kind, a[1].B, a[2].B, reused, fresh)
+		}
+		return "", ""
+	})
 	// v2 fields: args (variant, ldn, time, clock, ld, node)
 	Oracle("c13.v2.fields", func(a []Val) (string, string) {
 		u := mkV2(a)
@@ -797,14 +845,37 @@ func genC13(c *Ctx) {
 	for x := 0; x < 256; x++ {
 		c.Check("c13.v2.fields", U(uint64(x>>4)), U(r.U64()&0xffffffff), U(r.U64()&0x0fffffff00000000), U(uint64(x&15)), U(uint64(x)), B(r.Bytes(6)))
 	}
-	// v1 timestamps in the range where all conversions are exact (1970..2200); the rest is C15's
-	for rep := 0; rep < c.N(200, 4000); rep++ {
-		sec := int64(r.U64() % 7258118400)
+	// v1 timestamps over the whole 60-bit range of RFC 4122 (1582-10-15 .. about 5236), pre-1970 included;
+	// one in four in the present-day range 1970..2200
+	for rep := 0; rep < c.N(400, 8000); rep++ {
+		sec := int64(r.U64()%115292150460) - 12219292800
+		if rep%4 == 0 {
+			sec = int64(r.U64() % 7258118400)
+		}
+		if rep%16 == 1 {
+			sec = []int64{-12219292800, -12219292799, -1, 0, 1, -86400, 103072857659}[r.Intn(7)]
+		}
 		ns := int64(r.U64() % 1000000000)
 		if rep%10 == 0 {
 			ns = []int64{0, 99, 100, 999999900, 999999999}[r.Intn(5)]
 		}
 		c.Check("c13.v1.time", I(sec), I(ns))
+	}
+	// reused receivers
+	for rep := 0; rep < c.N(300, 6000); rep++ {
+		b1, b2 := r.Bytes(16), r.Bytes(16)
+		if rep%3 == 0 {
+			b1 = bytes.Repeat([]byte{0xff}, 16)
+		}
+		for _, k := range []string{"guid.from_raw", "uuid.unmarshal", "v1.from_bytes", "v2.from_bytes"} {
+			if k == "v1.from_bytes" {
+				b1[6], b2[6] = b1[6]&0x0f|0x10, b2[6]&0x0f|0x10
+			}
+			if k == "v2.from_bytes" {
+				b1[6], b2[6] = b1[6]&0x0f|0x20, b2[6]&0x0f|0x20
+			}
+			c.Check("c13.reuse", S(k), B(b1), B(b2))
+		}
 	}
 	// GUID fields outside the widths (E above 48 bits) only through the printers and ToBytes
 	for rep := 0; rep < c.N(100, 2000); rep++ {
